@@ -215,7 +215,12 @@ def check_query(ref, op, resp, ref_max):
         return None
     if kind == "is_subclass":
         other = common.to_ref(op["other"])
-        upto = min(ref_max, RC.max_len(other))
+        # any member of the receiver outside the argument disproves True; for a
+        # classical receiver a counterexample, if one exists, has length at most
+        # the longest basis element of the argument
+        upto = ref_max if RC.is_classical(other) else min(ref_max, 5)
+        if not mesh:
+            upto = min(upto, max(RC.max_len(other), 1))
         cex = RC.subclass_counterexample(ref, other, upto)
         recv_mesh = mesh
         arg_mesh = not RC.is_classical(other)
@@ -223,7 +228,7 @@ def check_query(ref, op, resp, ref_max):
         if val is True and cex is not None:
             return _bad("wrong_answer", op, f"is_subclass True but {cex} is in the receiver and not in the argument", **key_extra)
         if val is False and cex is None:
-            if not recv_mesh and upto == RC.max_len(other):
+            if not recv_mesh and upto >= RC.max_len(other):
                 # exact for a classical receiver: a counterexample of length at
                 # most the longest basis element of the argument must exist
                 return _bad("wrong_answer", op, "is_subclass False but the receiver lies inside the argument", **key_extra)
